@@ -1,7 +1,9 @@
 """C20 driver: replay a zone history (from Gen_BTreeZone) on dns.btreezone.Zone and record,
 after every load / commit / rollback, the projection of the newest version: content, the
 (name, flags) list in iteration order, list(version.delegations) and bounds(q) for every
-query name (or the exception).  Only drives and projects; Trace_BTreeZone judges.
+query name (or the exception).  The initial load is done either on a zone created with its
+origin (replacement transaction) or by dns.zone.from_text on a zone created WITHOUT an origin
+(the first transaction learns it from $ORIGIN).  Only drives and projects; Trace_BTreeZone judges.
 
 Names are exchanged as 1-based indices into the name table printed by TLC (canonical,
 relative to the origin); a name that is not in the table, or that has the wrong
@@ -12,6 +14,7 @@ import dns.rdata
 import dns.rdataclass
 import dns.rdataset
 import dns.rdatatype
+import dns.zone
 
 ORIGIN = dns.name.from_text("example.")
 
@@ -117,17 +120,40 @@ def setup(table, qsets):
     QSETS = qsets
 
 
-def replay(hist, qset, relativize, spelling, tid):
+def zone_text(tab, recs, spelling):
+    """Zone-file text of a load: a $ORIGIN line, then one line per record in the given order;
+    owner names relative ('nat') or absolute ('oth')."""
+    lines = ["$ORIGIN %s" % ORIGIN.to_text(), "$TTL 300"]
+    for i, ty, k in recs:
+        rel = dns.name.Name(tab.labels[i - 1])
+        owner = rel.derelativize(ORIGIN).to_text() if spelling == "oth" else rel.to_text()
+        lines.append("%s IN %s %s" % (owner, ty, _RD_TEXT[ty] % k))
+    return "\n".join(lines) + "\n"
+
+
+def replay(hist, qset, relativize, spelling, tid, mk="origin"):
+    """mk = "origin": the zone is created with its origin and loaded by a replacement transaction;
+    mk = "learn": the zone is created WITHOUT an origin by dns.zone.from_text and its first
+    (replacement) transaction learns the origin from the $ORIGIN line of the text."""
     tab = TABLE
     queries = QSETS[qset]
-    trace = {"tid": tid, "rel": relativize, "sp": spelling, "qset": qset, "ev": []}
+    trace = {"tid": tid, "rel": relativize, "sp": spelling, "qset": qset, "mk": mk, "ev": []}
     ev = trace["ev"]
-    zone = dns.btreezone.Zone(ORIGIN, relativize=relativize)
+    zone = dns.btreezone.Zone(ORIGIN, relativize=relativize) if mk == "origin" else None
     txn = None
     for e in hist:
         op = e["op"]
         rec = dict(e)
-        if op == "load":
+        if op == "load" and zone is None:
+            res, exc, zone = call(lambda: dns.zone.from_text(
+                zone_text(tab, e["recs"], spelling), origin=None, relativize=relativize,
+                zone_factory=dns.btreezone.Zone, check_origin=False))
+            if zone is None:
+                rec.update(res=res, exc=exc, obs={"content": [], "flags": [], "delegs": [], "bounds": []})
+                ev.append(rec)
+                break
+            rec.update(res=res, exc=exc, obs=observe(zone, tab, relativize, queries, spelling))
+        elif op == "load":
             # a replacement transaction adding one record at a time, like the zone file reader
             def load():
                 with zone.writer(True) as t:
@@ -164,9 +190,9 @@ def replay(hist, qset, relativize, spelling, tid):
 
 
 def run_job(job):
-    hist, qset, relativize, spelling, tid = job
+    hist, qset, relativize, spelling, tid, mk = job
     try:
-        return replay(hist, qset, relativize, spelling, tid)
+        return replay(hist, qset, relativize, spelling, tid, mk)
     except Exception as e:  # a driver failure is reported as an unmatched trace
-        return {"tid": tid, "rel": relativize, "sp": spelling, "qset": qset,
+        return {"tid": tid, "rel": relativize, "sp": spelling, "qset": qset, "mk": mk,
                 "ev": [{"op": "driver-error", "exc": repr(e)}]}
